@@ -2,6 +2,8 @@ import GqlProofs.Gen.Accounted
 import GqlProofs.Lexer.BlockSpec
 import GqlProofs.Lexer.Pos
 import GqlProofs.Lexer.NumFollow
+import GqlProofs.Lexer.SpecStep
+import GqlProofs.Lexer.SpecLex
 /-
   C03 — tokenisation conforms to the lexical grammar (theorem-backed parts).
 
@@ -18,11 +20,18 @@ import GqlProofs.Lexer.NumFollow
                                    (blank, comma, line terminators; on ASCII sources) and it stops
                                    exactly in front of a non-ignored character.
 
+   * `C03_step_ascii`           — one `ReadToken` step equals one lexical item of the specification on
+                                   ASCII text (kinds, values, extents; fails exactly where the grammar
+                                   admits no token), `C03_block_ascii` for block strings;
+   * `C03_lex_ascii`            — whole ASCII sources: `lexAll inp` and `Spec.lex inp` produce the same
+                                   tokens up to the end or the first error (hypothesis `BlocksOK`: no
+                                   block string is closed by a run of more than three quotes).
+
   NOT proved (covered by the exhaustive three-way enumeration of ./check C03 over lex19 / block6 /
-  lexraw16 and the random sweeps): the full equivalence `lexAll inp ≈ Spec.lex (decode inp)` for
-  strings with escapes, comments, and non-ASCII sources:
+  lexraw16 and the random sweeps): the equivalence for sources with non-ASCII characters:
       theorem C03_lex_sound_complete (cps) : lexAll (utf8Encode cps) ≈ Spec.lex cps
-  Known finding (not a theorem): a block string is closed by the LAST three quotes of a longer run.
+  Known finding (`C03_block_long_run_counterexample`, characterised exactly by `C03_block_ascii`): a
+  block string is closed by the LAST three quotes of a longer run.
 -/
 open Gql Gql.Lexer
 
@@ -166,3 +175,241 @@ theorem C03_gen_punctuators_agree :
 theorem C03_gen_escapes_agree :
     (∀ p ∈ Gql.Gen.stringEscapes, escapeOut p.1 = some p.2) ∧
     (∀ e, e < 128 → (escapeOut e).isSome → (Gql.Gen.stringEscapes.lookup e).isSome) := by decide
+
+/-! ### per-step equivalence of the model with the specification on ASCII sources -/
+
+/-- what `ws` leaves starts a token or is the end of the text (`NotIgnoredHead l` is
+    `match l with | [] => True | b :: _ => ¬ (b = 9 ∨ b = 32 ∨ b = 44 ∨ b = 10 ∨ b = 13)`) -/
+theorem C03_ws_leaves_token_start (rest : Bytes) (c : Cur) (hA : Ascii rest) :
+    NotIgnoredHead (ws rest c).1 := by
+  obtain ⟨ign, _, _, h3⟩ := C03_ignored_only_ws rest c hA
+  unfold NotIgnoredHead
+  split
+  · trivial
+  · rename_i b t heq
+    rw [heq] at h3
+    exact h3
+
+/-- One `ReadToken` step after `ws` (`readTokenBody`) against one lexical item of the specification
+    (`Spec.item`), for an ASCII text whose head is not an Ignored character (what `ws` leaves, see
+    `C03_ignored_only_ws`):
+     1. the item is EOF exactly at the end of the text, and the model then returns the EOF token;
+     2. the item is never `Ignored`;
+     3. a token item other than a block string is exactly what the model returns: kind, semantic value
+        (UTF-8 of the specification's code points), extent `n`, start and stop offsets, cursor;
+     4. where the grammar admits no token the model fails (block strings included);
+     5. conversely a model token other than EOF / BlockString is the specification's token;
+     6. conversely a model failure is a place where the grammar admits no token.
+    Block strings: `C03_block_ascii`. -/
+theorem C03_step_ascii (rest1 : Bytes) (c1 : Cur) (hA : Ascii rest1) (hH : NotIgnoredHead rest1) :
+    (Spec.item rest1 = .eof ↔ rest1 = []) ∧
+    (rest1 = [] → readTokenBody rest1 c1 =
+        .tok (Token.mk .eof [] c1.endR c1.endR c1.line (colOf c1.endR c1.ls)) [] c1) ∧
+    (∀ n, Spec.item rest1 ≠ .ignored n) ∧
+    (∀ k v n, Spec.item rest1 = .token k v n → k ≠ .blockString →
+      ∃ t c', readTokenBody rest1 c1 = .tok t (rest1.drop n) c' ∧ t.kind = k ∧ t.value = utf8Encode v ∧
+        t.start = c1.endR ∧ t.stop = c1.endR + n ∧ c'.endR = c1.endR + n) ∧
+    (Spec.item rest1 = .error → ∃ e, readTokenBody rest1 c1 = .err e) ∧
+    (∀ t rest' c', readTokenBody rest1 c1 = .tok t rest' c' → t.kind ≠ .eof → t.kind ≠ .blockString →
+      ∃ v n, Spec.item rest1 = .token t.kind v n ∧ t.value = utf8Encode v ∧ rest' = rest1.drop n ∧
+        t.start = c1.endR ∧ t.stop = c1.endR + n) ∧
+    (∀ e, readTokenBody rest1 c1 = .err e → Spec.item rest1 = .error) := by
+  have core := step_core rest1 c1 hA hH
+  have heof : rest1 = [] → readTokenBody rest1 c1 =
+        .tok (Token.mk .eof [] c1.endR c1.endR c1.line (colOf c1.endR c1.ls)) [] c1 := by
+    intro h; subst h; simp [readTokenBody, simpleTok, Cur.adv]
+  -- a block-string item makes the model return a BlockString token
+  have hblk : ∀ v n, Spec.item rest1 = .token .blockString v n →
+      ∃ t r' c', readTokenBody rest1 c1 = .tok t r' c' ∧ t.kind = .blockString := by
+    intro v n hit
+    rw [hit] at core
+    simp only [CoreOK, if_true] at core
+    obtain ⟨body, raw, nb, r, rfl, hbb, _, _⟩ := core
+    obtain ⟨t, c', e1, e2, _⟩ := step_block body c1 (Ascii_tail (Ascii_tail (Ascii_tail hA))) raw nb r hbb
+    exact ⟨t, _, c', e1, e2⟩
+  refine ⟨?_, heof, ?_, ?_, ?_, ?_, ?_⟩
+  · constructor
+    · intro h; rw [h] at core; exact core
+    · intro h; subst h; rfl
+  · intro n h; rw [h] at core; exact core
+  · intro k v n h hk
+    rw [h] at core
+    simp only [CoreOK, hk, if_false] at core
+    obtain ⟨t, c', e1, e2, e3, e4, e5, e6, _⟩ := core
+    exact ⟨t, c', e1, e2, e3, e4, e5, e6⟩
+  · intro h; rw [h] at core; exact core
+  · intro t rest' c' hm hk1 hk2
+    cases hit : Spec.item rest1 with
+    | eof =>
+      rw [hit] at core
+      rw [heof core] at hm
+      injection hm with h1 _ _
+      subst h1
+      exact absurd rfl hk1
+    | ignored n => rw [hit] at core; exact core.elim
+    | error =>
+      rw [hit] at core
+      obtain ⟨e, he⟩ := core
+      rw [he] at hm; cases hm
+    | token k v n =>
+      by_cases hk : k = .blockString
+      · subst hk
+        obtain ⟨t', r', c'', e1, e2⟩ := hblk v n hit
+        rw [e1] at hm
+        injection hm with h1 _ _
+        subst h1
+        exact absurd e2 hk2
+      · rw [hit] at core
+        simp only [CoreOK, hk, if_false] at core
+        obtain ⟨t', c'', e1, e2, e3, e4, e5, _, _⟩ := core
+        rw [e1] at hm
+        injection hm with h1 h2 _
+        subst h1
+        exact ⟨v, n, by rw [e2], e3, h2.symm, e4, e5⟩
+  · intro e hm
+    cases hit : Spec.item rest1 with
+    | eof =>
+      rw [hit] at core
+      rw [heof core] at hm; cases hm
+    | ignored n => rw [hit] at core; exact core.elim
+    | error => rfl
+    | token k v n =>
+      by_cases hk : k = .blockString
+      · subst hk
+        obtain ⟨t', r', c'', e1, _⟩ := hblk v n hit
+        rw [e1] at hm; cases hm
+      · rw [hit] at core
+        simp only [CoreOK, hk, if_false] at core
+        obtain ⟨t', c'', e1, _⟩ := core
+        rw [e1] at hm; cases hm
+
+/-- Block strings.  For an ASCII body after the opening `"""`:
+     * the grammar admits no block string here (`blockBody = none`: unterminated, or a control
+       character) iff the model fails;
+     * otherwise the item of the specification is the BlockString token with BlockStringValue(raw)
+       and extent `nb + 3`, and the model returns a BlockString token with the same start and stop
+       whose value and consumed extent additionally include the `quoteRun r` quotes that directly
+       follow the specification's closing `"""` (the model closes with the LAST three quotes of a
+       longer run: recorded known finding);
+     * under `NoLongQuoteRun body` (no quote follows the first unescaped `"""`) the two coincide:
+       value (UTF-8 of the specification's value), rest and cursor. -/
+theorem C03_block_ascii (body : Bytes) (c1 : Cur) (hA : Ascii body) :
+    match Spec.blockBody body with
+    | none => Spec.item (34 :: 34 :: 34 :: body) = .error ∧
+        ∃ e, readTokenBody (34 :: 34 :: 34 :: body) c1 = .err e
+    | some (raw, nb, r) =>
+      Spec.item (34 :: 34 :: 34 :: body) = .token .blockString (Spec.blockStringValue raw) (nb + 3) ∧
+      r = (34 :: 34 :: 34 :: body).drop (nb + 3) ∧
+      ∃ t c', readTokenBody (34 :: 34 :: 34 :: body) c1 = .tok t (r.drop (quoteRun r)) c' ∧
+        t.kind = .blockString ∧ t.start = c1.endR ∧ t.stop = c1.endR + (nb + 3) ∧
+        c'.endR = c1.endR + (nb + 3) + quoteRun r ∧
+        t.value = blockStringValue (normCR raw ++ List.replicate (quoteRun r) 34) ∧
+        (NoLongQuoteRun body = true →
+          t.value = utf8Encode (Spec.blockStringValue raw) ∧
+          r.drop (quoteRun r) = (34 :: 34 :: 34 :: body).drop (nb + 3) ∧ c'.endR = c1.endR + (nb + 3)) := by
+  cases hbb : Spec.blockBody body with
+  | none =>
+    have hm := readBlockLoop_spec c1 body (c1.adv 3 3) [] hA
+    rw [hbb] at hm
+    refine ⟨by rw [item_block, hbb], ?_⟩
+    rw [readTokenBody_block]
+    exact hm
+  | some p =>
+    obtain ⟨raw, nb, r⟩ := p
+    obtain ⟨t, c', e1, e2, e3, e4, e5, e6, e7⟩ := step_block body c1 hA raw nb r hbb
+    refine ⟨by rw [item_block, hbb], e7, t, c', e1, e2, e3, e4, e5, e6, ?_⟩
+    intro hq
+    obtain ⟨t', c'', f1, _, f3, _, _, f6, _⟩ := step_block_ok body c1 hA raw nb r hbb hq
+    rw [e1] at f1
+    injection f1 with g1 g2 g3
+    subst g1; subst g3
+    exact ⟨f3, g2, f6⟩
+
+/-- Without the hypothesis the two disagree: on `"""a""""` the specification's token is the block
+    string `a` of 7 characters (leaving one `"`), the model's token has the value `a"` and consumes
+    all 8 characters. -/
+theorem C03_block_long_run_counterexample :
+    let src : Bytes := [34, 34, 34, 97, 34, 34, 34, 34]
+    Ascii src ∧ NoLongQuoteRun (src.drop 3) = false ∧
+    Spec.item src = .token .blockString [97] 7 ∧
+    ∃ t c', readTokenBody src Cur.init = .tok t [] c' ∧ t.kind = .blockString ∧ t.value = [97, 34] ∧
+      t.stop = 7 ∧ c'.endR = 8 := by
+  intro src
+  have hA : Ascii src := by intro b hb; simp [src] at hb; omega
+  have hbb : Spec.blockBody [97, 34, 34, 34, 34] = some ([97], 4, [34]) := by
+    rw [blockBody_plain 97 _ (by intro r e; simp at e) (by intro r e; simp at e), blockBody_close]
+    rfl
+  have hq : quoteRun [34] = 1 := by simp [quoteRun]
+  have hb := C03_block_ascii [97, 34, 34, 34, 34] Cur.init (Ascii_tail (Ascii_tail (Ascii_tail hA)))
+  rw [hbb] at hb
+  obtain ⟨h1, _, t, c', e1, e2, e3, e4, e5, e6, _⟩ := hb
+  refine ⟨hA, ?_, ?_, t, c', ?_, e2, ?_, ?_, ?_⟩
+  · simp [src, NoLongQuoteRun, hbb, hq]
+  · rw [h1]; rfl
+  · rw [e1, hq]; rfl
+  · rw [e6, hq]; decide
+  · rw [e4]; rfl
+  · rw [e5, hq]; rfl
+
+-- non-vacuity of the step theorem's token clause
+example : Spec.item [123, 32] = .token .braceL [] 1 := by rfl
+
+/-! ### whole inputs -/
+
+/-- The token sequence of the model equals the token sequence of the lexical grammar, and the model
+    fails exactly where the grammar admits no token — for ASCII sources in which every block string
+    met at an item boundary satisfies `NoLongQuoteRun` (`BlocksOK`, a decidable walk over the items
+    of the specification):
+     * `Spec.lex inp = .ok toks`    ⇒ `lexAll inp = .done (ts ++ [eof])`, `eof` the EOF token, and `ts`
+       agrees with `toks` token by token in kind, value (UTF-8 of the specification's code points),
+       start and stop (`obsT t = (t.kind, t.value, t.start, t.stop)`, `obsS s = (s.kind, utf8Encode
+       s.value, s.start, s.stop)`);
+     * `Spec.lex inp = .error toks` ⇒ `lexAll inp = .fail ts e` with the same agreement of the tokens
+       lexed before the error.
+    Since `Spec.lex` is total and the two outcomes are disjoint on both sides this is an equivalence.
+    Line and column: `C04_tokens_are_spec_tokens_ascii`. -/
+theorem C03_lex_ascii (inp : Bytes) (hA : Ascii inp) (hb : BlocksOK (inp.length + 1) inp = true) :
+    match Spec.lex inp with
+    | .ok toks => ∃ ts eof, lexAll inp = .done (ts ++ [eof]) ∧ eof.kind = .eof ∧ eof.value = [] ∧
+        ts.map obsT = toks.map obsS
+    | .error toks => ∃ ts e, lexAll inp = .fail ts e ∧ ts.map obsT = toks.map obsS :=
+  lexAll_lex inp hA hb
+
+/-- Unconditional form for ASCII sources without three consecutive quotes (no block strings). -/
+theorem C03_lex_ascii_no_block (inp : Bytes) (hA : Ascii inp) (hq : NoTripleQuote inp = true) :
+    match Spec.lex inp with
+    | .ok toks => ∃ ts eof, lexAll inp = .done (ts ++ [eof]) ∧ eof.kind = .eof ∧ eof.value = [] ∧
+        ts.map obsT = toks.map obsS
+    | .error toks => ∃ ts e, lexAll inp = .fail ts e ∧ ts.map obsT = toks.map obsS :=
+  lexAll_lex inp hA (BlocksOK_of_noTriple _ inp hq)
+
+/-- The model never runs out of fuel and succeeds iff the grammar tokenises the whole source
+    (same hypotheses). -/
+theorem C03_lex_ascii_outcome (inp : Bytes) (hA : Ascii inp) (hb : BlocksOK (inp.length + 1) inp = true) :
+    ((∃ toks, Spec.lex inp = .ok toks) ↔ ∃ ts, lexAll inp = .done ts) ∧
+    ((∃ toks, Spec.lex inp = .error toks) ↔ ∃ ts e, lexAll inp = .fail ts e) := by
+  have h := C03_lex_ascii inp hA hb
+  cases hs : Spec.lex inp with
+  | ok toks =>
+    rw [hs] at h
+    obtain ⟨ts, eof, e1, _⟩ := h
+    refine ⟨⟨fun _ => ⟨_, e1⟩, fun _ => ⟨toks, rfl⟩⟩, ⟨?_, ?_⟩⟩
+    · intro ⟨_, h⟩; cases h
+    · intro ⟨_, _, h⟩; rw [e1] at h; cases h
+  | error toks =>
+    rw [hs] at h
+    obtain ⟨ts, e, e1, _⟩ := h
+    refine ⟨⟨?_, ?_⟩, ⟨fun _ => ⟨_, _, e1⟩, fun _ => ⟨toks, rfl⟩⟩⟩
+    · intro ⟨_, h⟩; cases h
+    · intro ⟨_, h⟩; rw [e1] at h; cases h
+
+-- the hypotheses are satisfiable and the conclusion is not vacuous
+example : BlocksOK 40 (str "{ a(x: \"s\\n\", y: 1.5e3) \"\"\"b\"\"\" }") = true := by decide
+example : (match Spec.lex (str "{ a }") with | .ok ts => ts.length | _ => 0) = 3 := by decide
+
+#print axioms C03_step_ascii
+#print axioms C03_block_ascii
+#print axioms C03_block_long_run_counterexample
+#print axioms C03_lex_ascii
+#print axioms C03_lex_ascii_no_block
+#print axioms C03_lex_ascii_outcome
